@@ -335,6 +335,8 @@ where
         let mut more_tokens = VecDeque::new();
 
         loop {
+            #[cfg(feature = "verif")]
+            markup5ever::verif::tick(2);
             let should_have_acknowledged_self_closing_flag = matches!(
                 token,
                 Token::Tag(Tag {
